@@ -88,6 +88,27 @@ def verus_files(S: Sources):
     return [VerusFile("c05_helpers", secs), VerusFile("c05_canary", canary, expect_fail=True)]
 
 
+def clear_file(S: Sources, prefix: str):
+    """SampleCollection::clear alone (for C02: the allocation figures of discarded tuning samples must not stay
+    attached to the samples that are reported under the same indices)."""
+    fd = S(FD); sm = S(SAMPLE)
+    secs = [ghost("imports", "use std::collections::HashMap;", kind="glue")]
+    secs += alloc_type_sections(S)
+    secs.append(code_item(fd, fd.find_item("struct", "FineDuration"), keep_attrs=("derive",),
+                          subst=[(r"#\[derive\([^\]]*\)\]", "#[derive(Clone, Copy, PartialEq, Eq)]", 1)]))
+    secs.append(code_item(sm, sm.find_item("struct", "TimeSample")))
+    secs.append(code_item(sm, sm.find_item("struct", "SampleCollection"), keep_attrs=(),))
+    f_clear = sm.find_fn("clear", impl=r"impl SampleCollection\b")
+    secs += wrap_impl("impl SampleCollection", [
+        code_fn(sm, f_clear, "SampleCollection::clear", pair=[], clauses="""
+            ensures
+                final(self).time_samples@.len() == 0,
+                final(self).alloc_info_by_sample@ == Map::<u32, ThreadAllocInfo>::empty(),
+        """)])
+    canary = list(secs) + [ghost("canaries", "pub fn canary_clear(s: &mut SampleCollection) { s.clear(); assert(false); }", kind="lemma")]
+    return [VerusFile(f"{prefix}_clear", secs), VerusFile(f"{prefix}_clear_canary", canary, expect_fail=True)]
+
+
 KANI_UTIL = r"""
 #[cfg(kani)]
 mod verif_c05_util {
